@@ -4,6 +4,7 @@ import (
 	"fmt"
 	"reflect"
 	"sort"
+	"strings"
 	"testing"
 
 	"pgregory.net/rapid"
@@ -42,14 +43,14 @@ var c09Catalogue = map[string][]c09Cause{
 		{"blank-name", "agency_name", []string{""}}, {"blank-url", "agency_url", []string{""}}, {"blank-timezone", "agency_timezone", []string{""}},
 	},
 	"routes.txt": {
-		{"blank-id", "route_id", []string{""}}, {"blank-type", "route_type", []string{""}}, {"unknown-agency", "agency_id", []string{"NOPE-agency", "nope"}},
+		{"blank-id", "route_id", []string{""}}, {"blank-type", "route_type", []string{""}}, {"unknown-agency", "agency_id", []string{"NOPE-agency", "nope", "@pad-right", "@pad-left"}},
 	},
 	"stops.txt": {
 		{"blank-id", "stop_id", []string{""}},
 	},
 	"transfers.txt": {
 		{"blank-from", "from_stop_id", []string{""}}, {"blank-to", "to_stop_id", []string{""}},
-		{"unknown-from", "from_stop_id", []string{"NOPE-stop"}}, {"unknown-to", "to_stop_id", []string{"NOPE-stop"}},
+		{"unknown-from", "from_stop_id", []string{"NOPE-stop", "@pad-right"}}, {"unknown-to", "to_stop_id", []string{"NOPE-stop", "@pad-left"}},
 	},
 	"calendar.txt": {
 		{"blank-id", "service_id", []string{""}}, {"blank-weekday", "monday", []string{""}}, {"blank-weekday", "sunday", []string{""}},
@@ -68,16 +69,16 @@ var c09Catalogue = map[string][]c09Cause{
 	},
 	"trips.txt": {
 		{"blank-route", "route_id", []string{""}}, {"blank-service", "service_id", []string{""}}, {"blank-id", "trip_id", []string{""}},
-		{"unknown-route", "route_id", []string{"NOPE-route"}}, {"unknown-service", "service_id", []string{"NOPE-service"}},
+		{"unknown-route", "route_id", []string{"NOPE-route", "@pad-right", "@pad-left"}}, {"unknown-service", "service_id", []string{"NOPE-service", "@pad-right"}},
 	},
 	"frequencies.txt": {
 		{"blank-trip", "trip_id", []string{""}}, {"blank-start", "start_time", []string{""}}, {"blank-end", "end_time", []string{""}}, {"blank-headway", "headway_secs", []string{""}},
-		{"unknown-trip", "trip_id", []string{"NOPE-trip"}}, {"bad-headway", "headway_secs", []string{"abc", "1.5", "99999999999"}},
+		{"unknown-trip", "trip_id", []string{"NOPE-trip", "@pad-right"}}, {"bad-headway", "headway_secs", []string{"abc", "1.5", "99999999999"}},
 		{"bad-start", "start_time", []string{"x", "1:2:3:4", "12-00-00"}}, {"bad-end", "end_time", []string{"noon", "::::"}},
 	},
 	"stop_times.txt": {
 		{"blank-stop", "stop_id", []string{""}}, {"blank-trip", "trip_id", []string{""}}, {"blank-seq", "stop_sequence", []string{""}},
-		{"unknown-stop", "stop_id", []string{"NOPE-stop"}}, {"unknown-trip", "trip_id", []string{"NOPE-trip"}},
+		{"unknown-stop", "stop_id", []string{"NOPE-stop", "@pad-right", "@pad-left"}}, {"unknown-trip", "trip_id", []string{"NOPE-trip", "@pad-right", "@pad-left", "@upper-tab"}},
 		{"bad-seq", "stop_sequence", []string{"abc", "1.5", "1e3"}},
 	},
 }
@@ -222,6 +223,21 @@ func c09MakeRow(tb *sgen.Table, tpl []string, cause c09Cause, value string, fres
 			row[i] = ""
 		}
 		return row
+	}
+	if strings.HasPrefix(value, "@") {
+		// a value derived from the id the template row names: the same id with white space around it is another id
+		orig := row[tb.Col(cause.Col)]
+		switch value {
+		case "@pad-right":
+			value = orig + " \u00a0" // no generated id ends like this, so the padded id is certainly not defined
+		case "@pad-left":
+			value = "\u00a0 " + orig
+		default:
+			value = strings.ToUpper(orig) + "\t"
+		}
+		if value == orig || orig == "" {
+			value = "NOPE"
+		}
 	}
 	row[tb.Col(cause.Col)] = value
 	return row
